@@ -46,4 +46,46 @@ MemberTable(s, kind) ==
     (IF At(s, i) # 123 THEN MFail ELSE
      LET j == SkipWS(s, i + 1) IN
      IF At(s, j) = 125 THEN [ok |-> TRUE, end |-> j, ms |-> <<>>] ELSE OMembs(s, j, <<>>))
+
+\* The same table with the extent of every member found by the (iterative) pushdown machine instead of the
+\* recursive grammar: MC_HandlersImpl shows the two agree; trace validation uses this formulation for documents
+\* thousands of levels deep, where the recursive one is quadratic inside TLC.
+MD1 == INSTANCE JSONMachine WITH MaxDepth <- GMaxDepth - 1, cfg <- 0, inp <- 0
+ValM(s, i) == LET m == MD1!Skip(SubSeq(s, i, Len(s))) IN [ok |-> m.ok, end |-> i - 1 + m.end]
+
+RECURSIVE AElemsM(_, _, _), OMembsM(_, _, _)
+AElemsM(s, i, acc) ==
+  LET v == ValM(s, i) IN
+  IF ~v.ok THEN MFail ELSE
+  LET j == SkipWS(s, v.end + 1)  acc2 == Append(acc, <<i - 1, 0, 0, v.end>>) IN
+  IF At(s, j) = 93 THEN [ok |-> TRUE, end |-> j, ms |-> acc2]
+  ELSE IF At(s, j) = 44 THEN AElemsM(s, SkipWS(s, j + 1), acc2)
+  ELSE MFail
+
+OMembsM(s, i, acc) ==
+  IF At(s, i) # 34 THEN MFail ELSE
+  LET ke == StrEnd(s, i + 1) IN
+  IF ke = 0 THEN MFail ELSE
+  LET c == SkipWS(s, ke) IN
+  IF At(s, c) # 58 THEN MFail ELSE
+  LET vs == SkipWS(s, c + 1)  v == ValM(s, vs) IN
+  IF ~v.ok THEN MFail ELSE
+  LET j == SkipWS(s, v.end + 1)
+      acc2 == Append(acc, <<vs - 1, i, ke - 2, v.end>>) IN
+  IF At(s, j) = 125 THEN [ok |-> TRUE, end |-> j, ms |-> acc2]
+  ELSE IF At(s, j) = 44 THEN OMembsM(s, SkipWS(s, j + 1), acc2)
+  ELSE MFail
+
+MemberTableM(s, kind) ==
+  LET i == SkipWS(s, 1) IN
+  IF IsLit(s, i, <<110, 117, 108, 108>>) THEN [ok |-> TRUE, end |-> i + 3, ms |-> <<>>]
+  ELSE IF GMaxDepth < 1 THEN MFail
+  ELSE IF kind = "A" THEN
+    (IF At(s, i) # 91 THEN MFail ELSE
+     LET j == SkipWS(s, i + 1) IN
+     IF At(s, j) = 93 THEN [ok |-> TRUE, end |-> j, ms |-> <<>>] ELSE AElemsM(s, j, <<>>))
+  ELSE
+    (IF At(s, i) # 123 THEN MFail ELSE
+     LET j == SkipWS(s, i + 1) IN
+     IF At(s, j) = 125 THEN [ok |-> TRUE, end |-> j, ms |-> <<>>] ELSE OMembsM(s, j, <<>>))
 =============================================================================
